@@ -259,8 +259,17 @@ func marshalPaths(r *evid.Run) {
 			}
 			rat := new(big.Rat).SetFloat64(f)
 			m = checkTokenVal(t, lit, rat, math.Trunc(f) == f, f, false, math.Signbit(f), func(*big.Int) bool { return false })
+			if m == "" {
+				// Float32: the value rounded to 32 bits; out of range exactly when that rounding overflows
+				w32 := float32(f)
+				g32, e32 := t.Float32()
+				overflow := math.IsInf(float64(w32), 0)
+				if math.Float32bits(g32) != math.Float32bits(w32) || (e32 != nil) != overflow || (e32 != nil && !errors.Is(e32, strconv.ErrRange)) {
+					m = fmt.Sprintf("Token.Float32() = %v, %v; want %v, range error=%v", g32, e32, w32, overflow)
+				}
+			}
 		default:
-			m = checkTokenObj(t, lit)
+			m = checkTokenObj(t, lit, false)
 		}
 		if m != "" {
 			r.Violation("c10|ctoken|"+ctor+"|"+lit, "constructed with jsontext."+ctor+": "+m, Case{Part: "ctoken", Literal: lit, Context: ctor}, nil)
@@ -278,6 +287,14 @@ func marshalPaths(r *evid.Run) {
 	}
 	for e := 0; e < 2047; e += 13 {
 		f64s = append(f64s, math.Float64frombits(uint64(e)<<52|0x5555555555555))
+	}
+	// around the largest float32: up to the rounding midpoint the value still rounds to MaxFloat32
+	{
+		max32, ulp := float64(math.MaxFloat32), math.Ldexp(1, 104)
+		mid := max32 + ulp/2
+		for _, f := range []float64{max32, math.Nextafter(max32, math.Inf(1)), 3.4028235e38, max32 + ulp/4, math.Nextafter(mid, 0), mid, math.Nextafter(mid, math.Inf(1)), math.Ldexp(1, 128), math.Nextafter(max32, 0), 3.5e38, 1e39} {
+			f64s = append(f64s, f, -f)
+		}
 	}
 	for _, f := range f64s {
 		if math.IsInf(f, 0) || math.IsNaN(f) {
@@ -307,6 +324,38 @@ func marshalPaths(r *evid.Run) {
 			if err != nil || !strings.Contains(string(b), want) || len(b) > len(want)+12 {
 				r.Violation("c10|marshal-untyped|"+want, fmt.Sprintf("Marshal(%T holding float64 %s) = %q (%v): the number is not printed as %s", carrier, want, b, err, want), Case{Part: "marshal", Literal: want, Context: fmt.Sprintf("%T", carrier)}, nil)
 			}
+		}
+		// the number printed after earlier output that looks like an exponent
+		for _, pre := range []string{"3b7e-0a41", "e-0", "1e-07", "e+0", "2e-", "-0e-00"} {
+			for ci, c := range []struct {
+				v    any
+				want string
+			}{
+				{[]any{pre, f}, `["` + pre + `",` + want + `]`},
+				{map[string]float64{pre: f}, `{"` + pre + `":` + want + `}`},
+				{struct {
+					Name string
+					F    float64
+					G    float32
+				}{pre, f, float32(1e-9)}, `{"Name":"` + pre + `","F":` + want + `,"G":1e-9}`},
+				{map[string]any{pre: []float64{f, 1e-7, f}}, `{"` + pre + `":[` + want + `,1e-7,` + want + `]}`},
+			} {
+				b, err = jsonv2.Marshal(c.v)
+				chk(b, err, c.want, fmt.Sprintf("Marshal(carrier %d after the text %q)", ci, pre))
+			}
+			bb.Reset()
+			enc = jsontext.NewEncoder(&bb)
+			err = enc.WriteToken(jsontext.BeginArray)
+			if err == nil {
+				err = enc.WriteToken(jsontext.String(pre))
+			}
+			if err == nil {
+				err = enc.WriteToken(jsontext.Float(f))
+			}
+			if err == nil {
+				err = enc.WriteToken(jsontext.EndArray)
+			}
+			chk([]byte(strings.TrimSuffix(bb.String(), "\n")), err, `["`+pre+`",`+want+`]`, fmt.Sprintf("WriteToken(Float) after String(%q) in one Encoder buffer", pre))
 		}
 		f32 := float32(f)
 		if !math.IsInf(float64(f32), 0) {
@@ -509,14 +558,24 @@ func checkToken(lit string) (msg string) {
 	if err != nil {
 		return fmt.Sprintf("ReadToken(%s): %v", lit, err)
 	}
-	return checkTokenObj(tok, lit)
+	return checkTokenObj(tok, lit, true)
 }
 
 // checkTokenObj checks the three accessors of a raw number token whose JSON number is lit.
-func checkTokenObj(tok jsontext.Token, lit string) (msg string) {
+func checkTokenObj(tok jsontext.Token, lit string, raw bool) (msg string) {
 	rat, _ := new(big.Rat).SetString(lit)
 	wf, werr := strconv.ParseFloat(lit, 64)
-	return checkTokenVal(tok, lit, rat, isIntGrammar(lit), wf, werr != nil, strings.HasPrefix(lit, "-"), func(got *big.Int) bool { return viaFloat(lit, got) })
+	if m := checkTokenVal(tok, lit, rat, isIntGrammar(lit), wf, werr != nil, strings.HasPrefix(lit, "-"), func(got *big.Int) bool { return viaFloat(lit, got) }); m != "" {
+		return m
+	}
+	if raw { // a constructed integer token goes through float64 first
+		w32, w32err := strconv.ParseFloat(lit, 32)
+		g32, e32 := tok.Float32()
+		if math.Float32bits(g32) != math.Float32bits(float32(w32)) || (e32 != nil) != (w32err != nil) || (e32 != nil && !errors.Is(e32, strconv.ErrRange)) {
+			return fmt.Sprintf("Token(%s).Float32() = %v, %v; want %v, error=%v", lit, g32, e32, float32(w32), w32err != nil)
+		}
+	}
+	return ""
 }
 
 // checkTokenVal checks the accessors of a number token (raw or constructed) against the documented semantics:
